@@ -175,15 +175,21 @@ pub fn run(a: &Args) {
     for p in b64() {
         guarded(&mut r, "C15|tss_segment|unexpected-panic", || format!("tssdesc {:#x}", p), |r| tss_desc_case(r, p));
     }
-    // real statics
-    for _ in 0..4 {
-        let t: &'static TaskStateSegment = Box::leak(Box::new(TaskStateSegment::new()));
+    // real statics, with arbitrary contents (the descriptor depends on the address only)
+    for iomap in [0x68u16, 0xffff, 0, 1, 0x67, 0x69, 0x8000] {
+        let t: &'static TaskStateSegment = Box::leak(Box::new({
+            let mut t = TaskStateSegment::new();
+            t.iomap_base = iomap;
+            t.privilege_stack_table[0] = VirtAddr::new(0xffff_8000_dead_b000);
+            t.interrupt_stack_table[6] = VirtAddr::new(0x7fff_ffff_f000);
+            t
+        }));
         r.ev(true);
         match Descriptor::tss_segment(t) {
             Descriptor::SystemSegment(lo, hi) => {
                 let x = decode_sys(lo, hi);
-                if x.base != t as *const _ as u64 || x.limit != 0x67 || x.typ != 9 || !x.p {
-                    r.viol("C15|tss_segment(&'static)|wrong", "tssstatic", "");
+                if x.base != t as *const _ as u64 || x.limit != 0x67 || x.typ != 9 || !x.p || x.s || x.dpl != 0 || x.g || x.l || x.db || x.avl || x.upper_reserved != 0 {
+                    r.viol("C15|tss_segment(&'static)|descriptor-depends-on-the-TSS-contents-or-wrong", &format!("tssstatic iomap_base={:#x}", iomap), &format!("limit {:#x} base {:#x}", x.limit, x.base));
                 }
             }
             _ => r.viol("C15|tss_segment(&'static)|not-a-system-descriptor", "tssstatic", ""),
